@@ -107,6 +107,11 @@ def may_be_short_list(t: T) -> Optional[str]:
         return "slice"
     if t.op in ("widen", "mut"):
         return "list built in a loop"
+    if t.op == "call" and t.a[0].op == "attr" and t.a[0].a[1] in ("get", "pop", "setdefault") and len(t.a[1]) == 2 \
+            and ((t.a[1][1].op in ("list", "tuple") and not t.a[1][1].a[0]) or t.a[1][1] in (const(""), const(b""), const(()))):
+        return f".{t.a[0].a[1]}(key, <empty>) - empty when the key is absent"
+    if t.op == "ite":
+        return may_be_short_list(t.a[1]) or may_be_short_list(t.a[2])
     return None
 
 
